@@ -74,6 +74,28 @@ FIRST = {  # why the first run of the property's quick check missed the change (
     "C19-r4-2": "the failing foreign call never ran during a module import",
     "C20-r4-1": "caught at first run",
     "C20-r4-2": "the directory handed to `clean` was never named like a source file",
+    # round 5 (evaluated with VERIF_SEED=1)
+    "C03-r5-1": "no template had a `from` loop whose bounds or step are of the wrong type (now: t_from_loop, each of the three positions x six wrong kinds)",
+    "C04-r5-1": "run vs compile+execute never ran a program in which the name of a finished loop's counter is declared again inside a later loop body and captured per iteration (now: four fixed name-lifetime programs)",
+    "C04-r5-2": "two classes of one name were only declared in two FUNCTIONS, and that fixed program did not even compile (`Box().size()`: one postfix per atom) - the rejection went unnoticed; now repaired, plus the same name in the two branches of an if/else and in two blocks",
+    "C05-r5-2": "the command-line stream wrote operands as literals inside the expression only for a random third of the cases; the (byte, bigint) multiplication was not among them (now: every (operator, kind, kind) triple both ways, kinds compared through the typed print)",
+    "C06-r5-1": "fallbacks with a nested `or` had the failing constant INSIDE the inner fallback only, never after a completed inner `or`",
+    "C07-r5-1": "no history in which the OWNER re-assigns a captured variable with `?=` (or from inside a block) and a closure reads it afterwards (now: OWNER_WRITE_CASES, 17 fixed programs)",
+    "C08-r5-2": "optional class-typed fields were read once per variable; no variable received a present and then a nil field of ANOTHER object",
+    "C09-r5-1": "functions with opcodes outside the VM model get a frames-only analysis, and no program applied a compound assignment to an element with a composite right operand (now: 700 fixed programs target x operator x operand form, the other checks' catalogues, and a scan of every run for the interpreter's operand-stack complaints)",
+    "C10-r5-1": "constants were declared by `const a = ..` only, never by unpacking (`const [a, dd] = ..`): three new declaration contexts in the matrix (model: SUnpack true)",
+    "C10-r5-2": "a copy of a module was written through at its own level, in a block and inside the function that made the copy, never from a closure that CAPTURED the copy",
+    "C11-r5-2": "names were imported from a module in one order only; no middle module imported a non-class name before a class and exported members typed with that class (now: all 24 orders of four names, 27 chains)",
+    "C12-r5-1": "the reported position of a failing `get` was compared by line only outside the Core programs, and Core programs are ASCII (now: column in characters after accents, CJK, emoji, combining marks, tabs)",
+    "C12-r5-2": "same gap as C06-r5-1: nothing followed a nested `or` inside a fallback",
+    "C15-r5-1": "the deciding left operand of && / || was always a variable, call or comparison, never a value read through an index, a field or a map (now: 12 forms x 3 uses, both operators)",
+    "C15-r5-2": "map literals were never nested inside the value of a pair of another map literal",
+    "C16-r5-1": "nesting was either shallow (generated) or extreme (1000 levels: the known stack overflow); nothing sat at a few dozen levels where only TIME can fail (now: 14 constructs x depths 24 / 40 / 64)",
+    "C16-r5-2": "constant operands at the boundaries (MIN, -1, widths) were C05/C06 business; the compile-never-panics check did not feed them to the folder (now: 1980 fixed operator x boundary x boundary inputs)",
+    "C17-r5-1": "the failing statement was wrapped in blocks that run once without `break` / `continue`; frames left behind by an earlier, finished loop were never in a trace (now: 15 loop shapes x 6 contexts x 3 places, trace compared with the twin that never ran the loop)",
+    "C18-r5-1": "every source file had a one-dot name; `report.v2.ms` and friends now go through the pipeline (with a stale neighbour `report.mmm` in place)",
+    "C18-r5-2": "the pipeline always ran in a fresh directory: the output never replaced an older, longer file (now: version histories long-short, short-long, long-mid-short in one directory)",
+    "C20-r5-2": "file names were str: names that are not valid UTF-8 (Latin-1 `caf\\xe9.mmm`) could not even be written down by the generator (now: a byte-level stream outside the model)",
     "C20-r3-2": "caught at first run, but only as a model/implementation difference on `..mmm` (a name the property's list leaves open); hidden names with a real extension (`.cache.mmm`) now give the concrete failing tree",
 }
 
